@@ -99,6 +99,75 @@ Theorem c07_trace_safe_prefix :
 Proof. exact trace_safe_prefix. Qed.
 Print Assumptions c07_trace_safe_prefix.
 
+(* ---- recovery: what a restarted process LOADS after a crash of a save -----------------------------------
+   [old] : option bytes — None = there is no offsets file yet (the crash hits the very FIRST save).
+   [crash_dir old s d]: the directory d a crash in state s may leave — the name cur still bound to what it held
+   before the save, or (after the rename) to the new inode with its durable content, or anything if that inode
+   was not synced; NOTHING is assumed about what is left under the temp name (absent, empty, a torn prefix of
+   any length, the complete new snapshot, garbage).  [load_dir] — the loader of both savers — reads only the
+   committed file; a missing file is the empty state.  For the protocol GENERATED from the source, every old,
+   every new, every device behaviour, every crash point and every such directory: the loaded state is the one
+   committed before the save (the empty state when there was none) or the complete new one.
+   Instantiated with the model of the real parser (offsetDB.load) and with the identity (Offset.Load hands the
+   bytes to the callback). *)
+Theorem c07_load_after_crash_filed :
+  forall (old : option bytes) (new : bytes) (o : oracle),
+    Forall (fun s => forall d : dir,
+              (dcur d = old \/ (cur_new s = true /\ exists c, dcur d = Some c /\ (c = dur s \/ vol s <> dur s))) ->
+              load_dir parse (Ok []) d = match old with None => Ok [] | Some b => parse b end \/
+              load_dir parse (Ok []) d = parse new)
+           (states new fs0 (run_proto new filed_save_protocol o fs0)).
+Proof. exact (load_after_crash filed_save_protocol eq_refl (res (list entry)) parse (Ok [])). Qed.
+Print Assumptions c07_load_after_crash_filed.
+
+Theorem c07_load_after_crash_generic :
+  forall (old : option bytes) (new : bytes) (o : oracle),
+    Forall (fun s => forall d : dir,
+              (dcur d = old \/ (cur_new s = true /\ exists c, dcur d = Some c /\ (c = dur s \/ vol s <> dur s))) ->
+              load_dir (@Some bytes) None d = old \/ load_dir (@Some bytes) None d = Some new)
+           (states new fs0 (run_proto new generic_save_protocol o fs0)).
+Proof. exact (load_after_crash_raw generic_save_protocol eq_refl). Qed.
+Print Assumptions c07_load_after_crash_generic.
+
+(* for every protocol the decision procedure accepts, every value type and decoder *)
+Theorem c07_load_after_crash_sound :
+  forall p, protocol_safe p = true ->
+  forall (A : Type) (decode : bytes -> A) (empty : A) (old : option bytes) (new : bytes) (o : oracle),
+    Forall (fun s => forall d, crash_dir old s d ->
+                       load_dir decode empty d = load_old decode empty old \/ load_dir decode empty d = decode new)
+           (states new fs0 (run_proto new p o fs0)).
+Proof. exact load_after_crash. Qed.
+Print Assumptions c07_load_after_crash_sound.
+
+(* the crash points the harness realises on the real code (stream family 'crash-load': before the first call,
+   the write interrupted after cut bytes, before the rename, done) are states of a run of the protocol, so the
+   verdict of which 6 is an instance of the theorem: whatever is left under the temp name *)
+Theorem c07_crash_point_recovery :
+  forall p, protocol_safe p = true ->
+  forall (A : Type) (decode : bytes -> A) (empty : A) (old : option bytes) (new : bytes) (cp : crashpt) (tmp : option bytes),
+    let d := {| dcur := dcur (kill_dir old (crash_state p new cp)); dtmp := tmp |} in
+    load_dir decode empty d = load_old decode empty old \/ load_dir decode empty d = decode new.
+Proof. exact crash_point_recovery. Qed.
+Print Assumptions c07_crash_point_recovery.
+
+Theorem c07_crash_state_is_a_crash_point :
+  forall p new cp, In (crash_state p new cp) (states new fs0 (run_proto new p (crash_oracle p new cp) fs0)).
+Proof. exact crash_state_in_states. Qed.
+Print Assumptions c07_crash_state_is_a_crash_point.
+
+(* a loader that falls back to the temp file when the offsets file is missing is refuted: the first save of the
+   snapshot [1; 2] is killed after one byte reached the temp file; the restart loads [1], which is neither the
+   empty state nor the new snapshot (the loader that reads only the committed file yields the empty state) *)
+Theorem c07_load_fallback_to_tmp_refuted :
+  protocol_safe tmp_sync_rename_protocol = true /\
+  exists (new : bytes) (cp : crashpt),
+    let d := kill_dir None (crash_state tmp_sync_rename_protocol new cp) in
+    load_dir_fallback (@Some bytes) None d <> load_old (@Some bytes) None None /\
+    load_dir_fallback (@Some bytes) None d <> Some new /\
+    load_dir (@Some bytes) None d = None.
+Proof. exact fallback_load_refuted. Qed.
+Print Assumptions c07_load_fallback_to_tmp_refuted.
+
 (* ---- commits vs saves: every interleaving of the labels, several saves of one offsetDB in flight ---------
    every block (job, offsets) of the offsets file, of the shared buffer, of every temp file, is the offsets map
    that job had at an earlier instant (the instant a save held the job's lock), and none of its offsets exceeds
@@ -178,3 +247,17 @@ Example c07_snapshot_nonvacuous :
              buf c = [(1%N, [([97%N], 12)])]) /\
   run_lts true cst0 [LAddJob 1; LSaveBegin 1; LSaveBegin 2] = None.
 Proof. split; [reflexivity|]. split; [eexists; vm_compute; repeat split; reflexivity | reflexivity]. Qed.
+
+(* recovery: the first save (no offsets file yet) of the generated generic protocol killed after 1 of 2 bytes
+   leaves no offsets file and a torn temp file, the loader yields the empty state; killed before the rename it
+   leaves the complete temp file, still the empty state; after the save the new snapshot; with an old file the
+   old one *)
+Example c07_recovery_nonvacuous :
+  kill_dir None (crash_state generic_save_protocol [1%N; 2%N] (CWrite 1)) = {| dcur := None; dtmp := Some [1%N] |} /\
+  kill_dir None (crash_state generic_save_protocol [1%N; 2%N] CBeforeRename) = {| dcur := None; dtmp := Some [1%N; 2%N] |} /\
+  kill_dir None (crash_state generic_save_protocol [1%N; 2%N] CDone) = {| dcur := Some [1%N; 2%N]; dtmp := None |} /\
+  kill_dir (Some [9%N]) (crash_state filed_save_protocol [1%N; 2%N] (CWrite 0)) = {| dcur := Some [9%N]; dtmp := Some [] |} /\
+  kill_dir (Some [9%N]) (crash_state filed_save_protocol [1%N; 2%N] CBeforeRename) = {| dcur := Some [9%N]; dtmp := Some [1%N; 2%N] |} /\
+  load_dir (@Some bytes) None {| dcur := None; dtmp := Some [1%N] |} = None /\
+  load_dir_fallback (@Some bytes) None {| dcur := None; dtmp := Some [1%N] |} = Some [1%N].
+Proof. vm_compute. repeat split; reflexivity. Qed.
